@@ -9,6 +9,7 @@
 EXTENDS Naturals, Sequences, TLC, Json
 
 CONSTANTS MaxCap, MaxOps, MaxMsgs,
+          MaxPend,        \* asynchronous operations pending at the same time
           FixedWrap       \* TRUE: resize wraps mq_get with >= (repaired); FALSE: > (defect: index = alloc)
 
 VARIABLES q, cap, putq, getq, closed,
@@ -59,21 +60,22 @@ DoneSeq(o) == LET RECURSIVE F(_)
                           ELSE IF o[i].st \in {"pend", "gone"} THEN F(i + 1)
                           ELSE <<[i |-> i, k |-> o[i].k, m |-> o[i].m, st |-> o[i].st]>> \o F(i + 1)
               IN F(1)
-Forget(o) == [i \in 1..Len(o) |-> IF o[i].st = "pend" THEN o[i] ELSE [k |-> o[i].k, m |-> 0, st |-> "gone"]]
+Forget(o) == [i \in 1..Len(o) |-> IF o[i].st = "pend" THEN o[i] ELSE [k |-> "x", m |-> 0, st |-> "gone"]]
 Apply(S) == /\ q' = S.q /\ ring' = S.ring /\ get' = S.get /\ put' = S.put /\ len' = S.len
             /\ putq' = S.putq /\ getq' = S.getq /\ ops' = Forget(S.ops)
 
 NOps == Len(ops)
+NPend == Len(putq) + Len(getq)
 
 \* nni_msgq_aio_put (closed is not checked by the code: the operation then just queues or completes)
-AioPut == /\ NOps < MaxOps /\ nextMsg <= MaxMsgs
+AioPut == /\ NOps < MaxOps /\ NPend < MaxPend /\ nextMsg <= MaxMsgs
           /\ LET i == NOps + 1
                  S == [S0 EXCEPT !.ops = Append(@, [k |-> "put", m |-> nextMsg, st |-> "pend"]), !.putq = Append(@, i)]
              IN /\ Apply(RunPutq(S))
                 /\ lastAct' = [a |-> "aio_put", m |-> nextMsg, out |-> [done |-> DoneSeq(RunPutq(S).ops)]]
           /\ nextMsg' = nextMsg + 1
           /\ UNCHANGED <<cap, alloc, closed>>
-AioGet == /\ NOps < MaxOps
+AioGet == /\ NOps < MaxOps /\ NPend < MaxPend
           /\ LET i == NOps + 1
                  S == [S0 EXCEPT !.ops = Append(@, [k |-> "get", m |-> 0, st |-> "pend"]), !.getq = Append(@, i)]
              IN /\ Apply(RunGetq(S))
@@ -94,7 +96,7 @@ TryPut == /\ nextMsg <= MaxMsgs
           /\ UNCHANGED <<cap, alloc, closed>>
 \* nni_msgq_cancel through nni_aio_abort(NNG_ECANCELED)
 Cancel(i) == /\ i \in 1..NOps /\ ops[i].st = "pend"
-             /\ ops' = [ops EXCEPT ![i] = [k |-> @.k, m |-> 0, st |-> "gone"]]
+             /\ ops' = [ops EXCEPT ![i] = [k |-> "x", m |-> 0, st |-> "gone"]]
              /\ putq' = SelectSeq(putq, LAMBDA x : x # i)
              /\ getq' = SelectSeq(getq, LAMBDA x : x # i)
              /\ lastAct' = [a |-> "cancel", i |-> i, out |-> [done |-> <<[i |-> i, k |-> ops[i].k, m |-> ops[i].m, st |-> "canceled"]>>]]
